@@ -1,6 +1,7 @@
 import Knut.Proofs.MTMRender
 import Knut.Proofs.LedgerCommand
 import Knut.Proofs.Portfolio
+import Knut.Proofs.MTMEmpty
 import Knut.Properties.C03Window
 /-!
 # C03 — the cells of the valued balance report are mark-to-market (command level)
@@ -106,7 +107,7 @@ insert, the rendered table has the row of `a` — the last segment of its name i
 cell per column — and for every column `k` (period end `D_k`) the exact mark-to-market values `Spec.mtm` at `D_k` and
 on the eve of the window exist and the cell shows their difference up to `Spec.stepBound` units of the 8th decimal
 (an empty cell — all per-column sums of the row vanish — reads as 0). -/
-theorem C03_command_cell (f : BalanceFlags) (v : Commodity) (hf : PlainFlags f v) (ds : List Directive)
+theorem C03_command_cell_built (f : BalanceFlags) (v : Commodity) (hf : PlainFlags f v) (ds : List Directive)
     (hz : ∀ t, Directive.tx t ∈ ds → ∀ p ∈ t.postings, p.value = 0)
     (es : List Entry) (part : Partition) (h : BalanceCmd.entries f ds = .ok (es, part))
     (a : Account) (hal : a.isAL = true) (hmem : ∃ e ∈ es, e.account = a) :
@@ -181,6 +182,31 @@ theorem C03_mtm_zero_of_closed (v : Commodity) (days : List Day) (a : Account) (
     unfold mtmTerm
     simp only [hq c hc, if_true]
 
+/-- **the cells of the report, over the journal's own days.**  `C03_command_cell_built` with the specification
+evaluated on `(Builder.ofList ds).build` — the directives grouped by date, nothing else — instead of the day list the
+command runs the pipeline on (which, with `--close`, also holds an empty day per period start; the specification does
+not see such days: `Proofs/MTMEmpty.lean`).  This is literally what the monitor computes (driver op `c03mtm`). -/
+theorem C03_command_cell (f : BalanceFlags) (v : Commodity) (hf : PlainFlags f v) (ds : List Directive)
+    (hz : ∀ t, Directive.tx t ∈ ds → ∀ p ∈ t.postings, p.value = 0)
+    (es : List Entry) (part : Partition) (h : BalanceCmd.entries f ds = .ok (es, part))
+    (a : Account) (hal : a.isAL = true) (hmem : ∃ e ∈ es, e.account = a) :
+    ∃ pre post cells,
+      (BalanceReport.table (BalanceCmd.renderCfg f part) es).rows =
+        pre ++ [Cell.text (a.segments.getLast?.getD "").toList .left ((2 * (a.segments.length - 1) : Nat) : Int) :: cells] ++ post ∧
+      cells.length = part.endDates.length ∧
+      ∀ (k : Nat) (hk : k < part.endDates.length) (hk' : k < cells.length),
+        ∃ mD mF, Spec.mtm v (Builder.ofList ds).build a part.endDates[k] = some mD ∧
+          Spec.mtm v (Builder.ofList ds).build a (part.span.start - 1) = some mF ∧
+          (cellVal cells[k] - (mD - mF)).abs ≤
+            (Spec.stepBound v (Builder.ofList ds).build a (part.span.start - 1) part.endDates[k] : Rat) / (10 : Rat) ^ 8 := by
+  obtain ⟨pre, post, cells, h1, h2, h3⟩ := C03_command_cell_built f v hf ds hz es part h a hal hmem
+  refine ⟨pre, post, cells, h1, h2, ?_⟩
+  intro k hk hk'
+  obtain ⟨mD, mF, m1, m2, m3⟩ := h3 k hk hk'
+  rw [mtm_daysOf] at m1 m2
+  rw [stepBound_daysOf] at m3
+  exact ⟨mD, mF, m1, m2, m3⟩
+
 /-- **the property's sentence**: if the account holds nothing on the eve of the window (in particular without `--from`,
 or with `--from` before the first booking on the account), every cell of its row is the exact mark-to-market value
 `Spec.mtm` of its column date up to `Spec.stepBound` units of the 8th decimal -/
@@ -188,15 +214,16 @@ theorem C03_command_cell_abs (f : BalanceFlags) (v : Commodity) (hf : PlainFlags
     (hz : ∀ t, Directive.tx t ∈ ds → ∀ p ∈ t.postings, p.value = 0)
     (es : List Entry) (part : Partition) (h : BalanceCmd.entries f ds = .ok (es, part))
     (a : Account) (hal : a.isAL = true) (hmem : ∃ e ∈ es, e.account = a)
-    (hclosed : ∀ c ∈ Spec.commoditiesOf (daysOf f ds part) a, Spec.qtyAt (daysOf f ds part) a c (part.span.start - 1) = 0) :
+    (hclosed : ∀ c ∈ Spec.commoditiesOf (Builder.ofList ds).build a,
+      Spec.qtyAt (Builder.ofList ds).build a c (part.span.start - 1) = 0) :
     ∃ pre post cells,
       (BalanceReport.table (BalanceCmd.renderCfg f part) es).rows =
         pre ++ [Cell.text (a.segments.getLast?.getD "").toList .left ((2 * (a.segments.length - 1) : Nat) : Int) :: cells] ++ post ∧
       cells.length = part.endDates.length ∧
       ∀ (k : Nat) (hk : k < part.endDates.length) (hk' : k < cells.length),
-        ∃ mD, Spec.mtm v (daysOf f ds part) a part.endDates[k] = some mD ∧
+        ∃ mD, Spec.mtm v (Builder.ofList ds).build a part.endDates[k] = some mD ∧
           (cellVal cells[k] - mD).abs ≤
-            (Spec.stepBound v (daysOf f ds part) a (part.span.start - 1) part.endDates[k] : Rat) / (10 : Rat) ^ 8 := by
+            (Spec.stepBound v (Builder.ofList ds).build a (part.span.start - 1) part.endDates[k] : Rat) / (10 : Rat) ^ 8 := by
   obtain ⟨pre, post, cells, h1, h2, h3⟩ := C03_command_cell f v hf ds hz es part h a hal hmem
   refine ⟨pre, post, cells, h1, h2, ?_⟩
   intro k hk hk'
@@ -311,9 +338,9 @@ example : (match BalanceCmd.entries exFlags exDirs with
       decide (part.span = ⟨3, 4⟩ ∧ part.endDates = [4] ∧ (∃ e ∈ es, e.account = exA) ∧
         [Cell.text "A".toList .left 2, Cell.num (158333332/100000000)] ∈
           (BalanceReport.table (BalanceCmd.renderCfg exFlags part) es).rows ∧
-        Spec.mtm "CHF" (daysOf exFlags exDirs part) exA 4 = some (103333333325/1000000000) ∧
-        Spec.mtm "CHF" (daysOf exFlags exDirs part) exA 2 = some (10175/100) ∧
-        Spec.stepBound "CHF" (daysOf exFlags exDirs part) exA 2 4 = 2)
+        Spec.mtm "CHF" (Builder.ofList exDirs).build exA 4 = some (103333333325/1000000000) ∧
+        Spec.mtm "CHF" (Builder.ofList exDirs).build exA 2 = some (10175/100) ∧
+        Spec.stepBound "CHF" (Builder.ofList exDirs).build exA 2 4 = 2)
     | .error _ => false) = true := by decide +kernel
 
 end Knut.C03
